@@ -9,6 +9,7 @@ import Driver.OpsRawXml
 import Driver.OpsUpload
 import Driver.OpsPropfind
 import Driver.OpsCardWire
+import Driver.OpsCalWire
 namespace Driver
 
 def dispatch (op : String) (args : List SExp) : Option OpResult :=
@@ -55,6 +56,10 @@ def dispatch (op : String) (args : List SExp) : Option OpResult :=
   | "card.dec" => opCardDec args
   | "card.encmg" => opCardEncMg args
   | "card.decmg" => opCardDecMg args
+  | "cal.enc" => opCalEnc args
+  | "cal.dec" => opCalDec args
+  | "cal.encmg" => opCalEncMg args
+  | "cal.decmg" => opCalDecMg args
   | "card.filter" => opCardFilter args
   | _ => none
 
